@@ -91,6 +91,9 @@ def corr_regex(ctx, tmp):
         if rng.random() < 0.25:
             lines[-1] = lines[-1].rstrip("\n")
         text = "".join(lines)
+        crlf = rng.random() < 0.2 or k < 6
+        if crlf:
+            text = text.replace("\n", "\r\n")      # Windows line endings: they stay, and the reported diff is a diff of this file
         if rng.random() < 0.15:
             text = "\ufeff" + text      # a file that starts with a UTF-8 byte order mark: the mark belongs to line 1 and stays
         frm, to = rng.choice([("http:", "https:"), ("x=1", "x=2"), ("zzz", "y"), ("plain", "plain")])
@@ -143,8 +146,15 @@ def corr_regex(ctx, tmp):
                     exp = [m["id"] for m in model if m["id"] is not None and any(a <= c["line"] <= b for a, b in m["locs"])] if rq["results"] is not None else []
                     if c["findings"] != exp:
                         bad = ("regex-findings-line", f"change on line {c['line']} carries findings {c['findings']}, the findings at that line are {exp}")
+        if not bad and cs is not None and not dry:
+            # the reported diff is a diff of the file: applied to the content before it gives the content written (up to a final newline)
+            patched = e2e.gnu_patch(text.encode("utf-8"), cs.diff)
+            want = after.encode("utf-8")
+            if patched is None or patched.rstrip(b"\r\n") != want.rstrip(b"\r\n"):
+                bad = ("diff-does-not-reproduce-file", "the reported diff " + ("is rejected by patch(1)" if patched is None else "applied to the original does not give the file written")
+                       + (" (CRLF file)" if "\r\n" in text else ""))
         if bad:
-            ctx.fail({"kind": bad[0], "pipeline": "sast-regex" if sast else "regex"}, bad[1], {"request": rq, "impl": im, "after": after})
+            ctx.fail({"kind": bad[0], "pipeline": "sast-regex" if sast else "regex", "crlf": "\r\n" in text}, bad[1], {"request": rq, "impl": im, "after": after})
 
 
 # ------------------------------------------------------------------------------------------ XML
